@@ -31,10 +31,63 @@ def arr(a):
     return x
 
 
+OBJ = {}
+
+
+def climate_object(kind, objN):
+    """a real climate network with `objN` grid nodes (cached per child: several requests then
+    form a history on one object)"""
+    if (kind, objN) not in OBJ:
+        from pyunicorn.climate import ClimateData, MutualInfoClimateNetwork, \
+            RainfallClimateNetwork
+        from pyunicorn.core import GeoGrid
+        rs = np.random.RandomState(objN)
+        T = 8
+        grid = GeoGrid(np.arange(T, dtype=float), np.linspace(-40, 40, objN),
+                       np.linspace(0, 90, objN), silence_level=3)
+        data = ClimateData(rs.randn(T, objN), grid, time_cycle=1, silence_level=3)
+        if kind == "mi":
+            OBJ[kind, objN] = MutualInfoClimateNetwork(data, threshold=0.2, winter_only=False,
+                                                       silence_level=3)
+        else:
+            OBJ[kind, objN] = RainfallClimateNetwork(data, threshold=0.2, silence_level=3)
+    return OBJ[kind, objN]
+
+
 def call(req):
     fn = req["fn"]
     A = [arr(a) for a in req.get("arrays", [])]
     S = req.get("args", [])
+    if fn == "mi_obj":
+        # the public methods on a REAL network whose number of nodes differs from the number of
+        # columns of the caller's anomaly array
+        net = climate_object("mi", S[0])
+        if S[1] == "csm":
+            return net.calculate_similarity_measure(A[0])
+        if S[1] == "mi":
+            return net.mutual_information(anomaly=A[0], dump=False, load=False)
+        if S[1] == "mi-dump":       # stores the (k, k) matrix in the (temporary) working directory
+            return net.mutual_information(anomaly=A[0], dump=True, load=False)
+        return net._cython_calculate_mutual_information(A[0], n_bins=S[2])
+    if fn == "spearman_obj":
+        net = climate_object("rain", S[0])
+        return net.spearman_corr(A[0], A[1])
+    if fn == "surr_obj":
+        # the two test functions through an instance whose own data have another shape
+        from pyunicorn.timeseries.surrogates import Surrogates
+        s = Surrogates(np.random.RandomState(7).randn(S[0], S[1]), silence_level=3)
+        if S[2] == "pearson":
+            return s.test_pearson_correlation(A[0], A[1])
+        return s.test_mutual_information(A[0], A[1], n_bins=S[3])
+    if fn == "cfb_resize":
+        # oracle only: resistances of another size than the network, then the raw-pointer methods
+        from pyunicorn.core.resistive_network import ResNetwork
+        net = ResNetwork(A[0], silence_level=3)
+        c = [0, 0]
+        _try(c, net.update_resistances, A[1])
+        _try(c, net.vertex_current_flow_betweenness, S[0])
+        _try(c, net.edge_current_flow_betweenness)
+        return ("cnt", c[0], c[1])
     if fn == "spearman":
         from pyunicorn.climate.rainfall import RainfallClimateNetwork
         o = object.__new__(RainfallClimateNetwork)
@@ -130,6 +183,20 @@ def call(req):
         vg = VisibilityGraph(A[0], timings=A[1] if len(A) > 1 else None,
                              silence_level=3, **kw)
         return vg.adjacency
+    if fn == "linedist":
+        # a wrapper of `_line_dist` at its own boundary: S = [name, n_time, eps, dim]
+        import pyunicorn.timeseries._ext.numerics as tsn
+        f = getattr(tsn, S[0])
+        hist = A[0]
+        if "sequential" in S[0] and "missingvalues" in S[0]:
+            f(S[1], hist, A[2], A[1], S[2], S[3])
+        elif "sequential" in S[0]:
+            f(S[1], hist, A[1], S[2], S[3])
+        elif "missingvalues" in S[0]:
+            f(S[1], hist, A[1], A[2])
+        else:
+            f(S[1], hist, A[1])
+        return ("vec", hist)
     if fn == "pyx_kernel":
         # a typed-buffer kernel at its own boundary: arrays of the requested shapes
         # (random small contents), scalars as given
@@ -254,8 +321,8 @@ def sweep(req, A, S):
         from pyunicorn.core import InteractingNetworks
         net = InteractingNetworks(adjacency=A[0], directed=False, silence_level=3)
         n = A[0].shape[0]
-        n1 = list(range(n // 2))
-        n2 = list(range(n // 2, n))
+        n1 = kw.get("n1", list(range(n // 2)))
+        n2 = kw.get("n2", list(range(n // 2, n)))
         for m in ("cross_link_density", "cross_degree", "cross_closeness",
                   "cross_betweenness", "cross_local_clustering", "cross_global_clustering",
                   "cross_transitivity", "cross_average_path_length", "nsi_cross_degree",
@@ -351,6 +418,8 @@ def main():
             out = "ok"
             if isinstance(res, tuple) and len(res) == 3 and res[0] == "cnt":
                 out = f"ok:methods_ok={res[1]},methods_raise={res[2]}"
+            if isinstance(res, tuple) and len(res) == 2 and res[0] == "vec":
+                out = "ok:" + (",".join(str(int(v)) for v in res[1]) or "-")
             if isinstance(res, tuple) and len(res) == 2 and res[0] == "mat":
                 M = res[1]
                 out = "ok:" + (";".join(",".join(str(int(v)) for v in row) or "-"
